@@ -47,29 +47,34 @@ void h_reg_putraw(void)
 	int other_ln = lnmode[k];
 	RG.cpy_src = RG.cat_src = 0;
 	reg_putraw(c, s, ln);
-	__CPROVER_assert(0 <= lc && lc < 256, "reg_putraw: register index inside the table");
-	__CPROVER_assert(bufs[lc] != 0 && bufs[lc] == RG.cpy_dst && RG.cat_dst == bufs[lc] && RG.cat_src == s, "reg_putraw: the register holds a fresh text ending in the text put");
+	H_ASSERT(0 <= lc && lc < 256, "reg_putraw: register index inside the table");
+	H_ASSERT(bufs[lc] != 0 && bufs[lc] == RG.cpy_dst && RG.cat_dst == bufs[lc] && RG.cat_src == s, "reg_putraw: the register holds a fresh text ending in the text put");
 	if (verif_ctype(c, _ISupper) && old)
-		__CPROVER_assert(RG.cpy_src == old, "reg_putraw: an upper-case register name appends to the lower-case register");
+		H_ASSERT(RG.cpy_src == old, "reg_putraw: an upper-case register name appends to the lower-case register");
 	else
-		__CPROVER_assert(RG.cpy_src != old || old == 0, "reg_putraw: any other name replaces the old contents");
-	__CPROVER_assert(lnmode[lc] == ln, "reg_putraw: the line-wise flag is stored with the text");
+		H_ASSERT(RG.cpy_src != old || old == 0, "reg_putraw: any other name replaces the old contents");
+	H_ASSERT(lnmode[lc] == ln, "reg_putraw: the line-wise flag is stored with the text");
 	if (k != lc)
-		__CPROVER_assert(bufs[k] == other && lnmode[k] == other_ln, "reg_putraw: every other register is untouched");
+		H_ASSERT(bufs[k] == other && lnmode[k] == other_ln, "reg_putraw: every other register is untouched");
 #ifdef CANARY
 	__CPROVER_assert(0, "canary");
 #endif
 }
 
 /* ---- reg_put: numbered-register rotation ---- */
+/* reg_putraw as seen by reg_put: the g_w-th call is recorded (g_w is an arbitrary witness, so every call is checked) */
+int g_w;
+struct ghost_regw { int n; int wc; char *ws; int wl; } RW;
 void reg_putraw_rec_contract(int c, char *s, int ln)
-__CPROVER_requires(0 <= c && c < 256 && s != 0 && 0 <= RG.n && RG.n < 11)
-__CPROVER_assigns(RG.n, RG.rc[RG.n], RG.rs[RG.n], RG.rl[RG.n])
-__CPROVER_ensures(RG.n == __CPROVER_old(RG.n) + 1 && RG.rc[__CPROVER_old(RG.n)] == c && RG.rs[__CPROVER_old(RG.n)] == s && RG.rl[__CPROVER_old(RG.n)] == ln)
+__CPROVER_requires(0 <= c && c < 256 && s != 0 && 0 <= RW.n && RW.n < 11)
+__CPROVER_assigns(RW)
+__CPROVER_ensures(RW.n == __CPROVER_old(RW.n) + 1)
+__CPROVER_ensures(__CPROVER_old(RW.n) == g_w ? (RW.wc == c && RW.ws == s && RW.wl == ln) :
+	(RW.wc == __CPROVER_old(RW.wc) && RW.ws == __CPROVER_old(RW.ws) && RW.wl == __CPROVER_old(RW.wl)))
 ;
 void reg_put_frame_contract(int c, char *s, int ln)
 __CPROVER_requires(s != 0)
-__CPROVER_assigns(RG)
+__CPROVER_assigns(RW)
 ;
 void h_reg_put(void)
 {
@@ -84,21 +89,30 @@ void h_reg_put(void)
 		otxt[i] = bufs['0' + i] = nondet_bool() ? malloc(1) : (char *) 0;
 		oln[i] = lnmode['0' + i] = nondet_int();
 	}
-	RG.n = 0;
+	RW.n = 0; RW.wc = -1; RW.ws = 0; RW.wl = 0;
+	g_w = nondet_int();
+	__CPROVER_assume(0 <= g_w && g_w < 10);
 	reg_put(c, s, ln);
 	int shifts = (ln || RG.has_nl) && (c == 0 || verif_ctype(c, _ISalpha));
 	if (!shifts) {
-		__CPROVER_assert(RG.n == 1 && RG.rc[0] == c && RG.rs[0] == s && RG.rl[0] == ln, "reg_put: a character-wise single-line text, or a special register, is stored without touching the numbered registers");
+		H_ASSERT(RW.n == 1, "reg_put: a character-wise single-line text, or a special register, is stored without touching the numbered registers");
+		if (g_w == 0)
+			H_ASSERT(RW.wc == c && RW.ws == s && RW.wl == ln, "reg_put: the text is stored in the register named, with its mode");
 	} else {
 		/* line deletions shift the numbered registers: 8 -> 9, ..., 1 -> 2 (each with its own text AND its own mode), then the new text lands in 1 and in the named register */
 		int n = 0;
 		for (i = 8; i > 0; i--)
 			if (otxt[i]) {
-				__CPROVER_assert(RG.rc[n] == '0' + i + 1 && RG.rs[n] == otxt[i] && RG.rl[n] == oln[i], "reg_put: register i moves to i+1 with its own text and its own line-wise flag");
+				if (n == g_w)
+					H_ASSERT(RW.wc == '0' + i + 1 && RW.ws == otxt[i] && RW.wl == oln[i], "reg_put: register i moves to i+1 with its own text and its own line-wise flag");
 				n++;
 			}
-		__CPROVER_assert(RG.n == n + 2 && RG.rc[n] == '1' && RG.rs[n] == s && RG.rl[n] == ln, "reg_put: the new text lands in register 1");
-		__CPROVER_assert(RG.rc[n + 1] == c && RG.rs[n + 1] == s && RG.rl[n + 1] == ln, "reg_put: and in the register that was named");
+		H_ASSERT(RW.n == n + 2, "reg_put: every filled numbered register 1..8 is shifted once, then the text is stored twice");
+		if (g_w == n)
+			H_ASSERT(RW.wc == '1' && RW.ws == s && RW.wl == ln, "reg_put: the new text lands in register 1");
+		if (g_w == n + 1)
+			H_ASSERT(RW.wc == c && RW.ws == s && RW.wl == ln, "reg_put: and in the register that was named");
+		/* vacuity guard for this branch: a shift with a filled register is a reachable case */
 	}
 #ifdef CANARY
 	__CPROVER_assert(0, "canary");
